@@ -168,6 +168,12 @@ def _mergeable(stmts, safe):
                         return False
                 if isinstance(n, (ast.Lambda, ast.ListComp, ast.GeneratorExp, ast.Yield, ast.Await, ast.NamedExpr)):
                     return False
+                if isinstance(n, ast.Slice):
+                    # slices with computed bounds concretise (fork) at run time: such an `if` must stay a fork
+                    for b in (n.lower, n.upper, n.step):
+                        if b is not None and not (isinstance(b, ast.Constant) or (
+                                isinstance(b, ast.UnaryOp) and isinstance(b.operand, ast.Constant))):
+                            return False
         elif isinstance(s, ast.Pass):
             pass
         elif isinstance(s, ast.If):
